@@ -144,9 +144,11 @@ HistTargets ==
           \cup {Case("grow", kind, {<<n, "v">>}, "none") : n \in FullFields(kind)}
           \cup {Case("full", kind, FullFv(kind, "v") \ {<<n, "v">>}, "none") : n \in FullFields(kind)} : v \in {2, 3}}
    \cup {Case("full", kind, FullFv(kind, "v"), "none") : kind \in {k \in Kinds : ~IsRoot(k) /\ FullFields(k) # {}}}
+   (* documents that ask for external resources (the ones an earlier document of the history may have left in a Loader's caches) *)
+   \cup {Case("full", kind, FullFv(kind, var), "none") : kind \in {"Components", "Paths", "Operation", "Response", "MediaType"}, var \in {"xref", "xfrag"}}
 RECURSIVE SeqsUpTo(_, _)
 SeqsUpTo(S, n) == IF n = 0 THEN {<<>>} ELSE LET shorter == SeqsUpTo(S, n - 1) IN shorter \cup {Append(q, x) : q \in shorter, x \in S}
-Hists(v) == {[entry |-> e, prior |-> q] : e \in HistEntries(v), q \in SeqsUpTo(PriorNames, MaxHist) \ {<<>>}}
+Hists(v) == {[entry |-> e, prior |-> q] : e \in HistEntries(v), q \in SeqsUpTo(PriorNames(v), MaxHist) \ {<<>>}}
 
 InitCase ==
    /\ \/ \E kind \in Kinds : \E ext \in ExtModes(kind) : gcase = Case("grow", kind, {}, ext)
@@ -185,6 +187,7 @@ Descr(cc) == IF cc.mode = "special" THEN cc
                    fv |-> {[f |-> p[1], var |-> p[2]] : p \in cc.fv}]
 (* a history case carries its prior documents (and the external resources of all of them) *)
 HistOf(v, h) == [entry |-> h.entry, prior |-> [i \in DOMAIN h.prior |-> [name |-> h.prior[i], doc |-> PriorDoc(v, h.prior[i])]]]
-Emit == CSVWrite("%1$s", <<ToJson([d |-> Descr(gcase), ver |-> VerOf(gcase), doc |-> gdoc, ext |-> ExtOf(VerOf(gcase), gdoc),
+AllDocs(v, h) == Av(<<gdoc>> \o [i \in DOMAIN h.prior |-> PriorDoc(v, h.prior[i])])
+Emit == CSVWrite("%1$s", <<ToJson([d |-> Descr(gcase), ver |-> VerOf(gcase), doc |-> gdoc, ext |-> ExtOf(VerOf(gcase), AllDocs(VerOf(gcase), ghist)),
                                    hist |-> HistOf(VerOf(gcase), ghist)])>>, "cases.ndjson")
 =============================================================================
